@@ -298,7 +298,21 @@ def run_case(case, graph_kwargs=None, want_text=False):
         return res
     fmt = C.SHEXC if cfg["format"] == "shexc" else C.SHACL_TURTLE
     thr = cfg["thr"][0] / cfg["thr"][1]
-    st, text, exc, frame = call_guarded(lambda: shaper.shex_graph(string_output=True, acceptance_threshold=thr, output_format=fmt))
+    if cfg.get("sink") == "file":      # output file instead of returned string
+        import tempfile
+        import shutil
+        d = tempfile.mkdtemp(prefix="shexer-verif-out-")
+        try:
+            path = os.path.join(d, "out.txt")
+            st, _none, exc, frame = call_guarded(lambda: shaper.shex_graph(output_file=path, acceptance_threshold=thr, output_format=fmt), timeout=60)
+            text = None
+            if st == "ok":
+                with open(path, encoding="utf8") as fh:
+                    text = fh.read()
+        finally:
+            shutil.rmtree(d, ignore_errors=True)
+    else:
+        st, text, exc, frame = call_guarded(lambda: shaper.shex_graph(string_output=True, acceptance_threshold=thr, output_format=fmt), timeout=60)
     if st != "ok":
         res.update(status=st, exc=exc, frame=frame, phase="shex_graph")
         return res
